@@ -1,7 +1,7 @@
 (* History.v — the text of /repo *before* each "fix:" commit, kept so that the
    witnesses that motivated the fixes stay machine-checked (`_refuted` theorems).
    Nothing else depends on this file. *)
-From CCTZ Require Import Base Cal SrcConstants CivilImpl FixedImpl.
+From CCTZ Require Import Base Cal SrcConstants CivilImpl FixedImpl PosixImpl.
 Local Open Scope Z_scope.
 
 (* ---- F1 (C04): n_mon before the fix did `y += m / 12` and then `y -= 1`. *)
@@ -41,4 +41,80 @@ Theorem fromname_nul_refuted :
   fixed_parse02d_prefix 48 0 = 10 /\
   FixedOffsetFromName (kFixedZonePrefix ++ [43; 48; 0; 58; 48; 48; 58; 48; 48]) = None /\
   fixed_from_spec (kFixedZonePrefix ++ [43; 48; 0; 58; 48; 48; 58; 48; 48]) = None.
+Proof. vm_compute. repeat split; reflexivity. Qed.
+
+(* ---- F3 (C16, C12): ParseDateTime before the fix succeeded without writing
+   res->date (a) when the ",date" part was missing and (b) when an Mm.w.d date
+   was cut short. *)
+Definition posix_parse_date_prefix (p : list Z) : option (option pdate * list Z) :=
+  match p with
+  | 77 :: r =>
+      match posix_parse_int r 1 12 with
+      | None => None
+      | Some (month, p1) =>
+          match p1 with
+          | 46 :: r1 =>
+              match posix_parse_int r1 1 5 with
+              | None => None
+              | Some (week, p2) =>
+                  match p2 with
+                  | 46 :: r2 =>
+                      match posix_parse_int r2 0 6 with
+                      | None => None
+                      | Some (weekday, r3) => Some (Some (DM month week weekday), r3)
+                      end
+                  | _ => Some (None, p2)          (* date left unset, p non-null *)
+                  end
+              end
+          | _ => Some (None, p1)                  (* date left unset, p non-null *)
+          end
+      end
+  | _ =>
+      match posix_parse_date p with
+      | Some (d, r) => Some (Some d, r)
+      | None => None
+      end
+  end.
+
+Definition posix_parse_datetime_prefix (p : option (list Z)) : option (ptrans * list Z) :=
+  match p with
+  | None => None
+  | Some p0 =>
+      let r :=
+        match p0 with
+        | 44 :: r0 => posix_parse_date_prefix r0
+        | _ => Some (None, p0)                    (* no ',': date skipped, p unchanged *)
+        end in
+      match r with
+      | None => None
+      | Some (date, p1) =>
+          match p1 with
+          | 47 :: r1 =>
+              match posix_parse_offset (Some r1) (-167) 167 1 with
+              | None => None
+              | Some (off, p2) => Some (mkPT date (Some off), p2)
+              end
+          | _ => Some (mkPT date (Some 7200), p1)
+          end
+      end
+  end.
+
+Definition ParsePosixSpec_prefix := ParsePosixSpec_gen posix_parse_datetime_prefix.
+
+Definition date_unset (r : option posix_tz) : bool :=
+  match r with
+  | Some z => match pt_date (dst_start z), pt_date (dst_end z) with
+              | Some _, Some _ => false | _, _ => true end
+  | None => false
+  end.
+
+(* "STD5DST,M3.2.0", "STD5DST/1" and "EST5EDT,M3,M11.1.0": accepted pre-fix with
+   a date the consumer reads left unset; rejected post-fix. *)
+Theorem posix_dropped_rule_refuted :
+  let s1 := [83;84;68;53;68;83;84;44;77;51;46;50;46;48] in
+  let s2 := [83;84;68;53;68;83;84;47;49] in
+  let s3 := [69;83;84;53;69;68;84;44;77;51;44;77;49;49;46;49;46;48] in
+  date_unset (ParsePosixSpec_prefix s1) = true /\ ParsePosixSpec s1 = None /\
+  date_unset (ParsePosixSpec_prefix s2) = true /\ ParsePosixSpec s2 = None /\
+  date_unset (ParsePosixSpec_prefix s3) = true /\ ParsePosixSpec s3 = None.
 Proof. vm_compute. repeat split; reflexivity. Qed.
